@@ -3,6 +3,8 @@ package storekit
 import (
 	"os"
 	"path/filepath"
+	"sync/atomic"
+	"time"
 
 	"github.com/jilio/ebu/stores/sqlite"
 )
@@ -16,7 +18,47 @@ func TempDir(prefix string) (string, func()) {
 	return d, func() { os.RemoveAll(d) }
 }
 
+type nopLogger struct{}
+
+func (nopLogger) Debug(string, ...any) {}
+func (nopLogger) Info(string, ...any)  {}
+func (nopLogger) Error(string, ...any) {}
+
+type nopMetrics struct{}
+
+func (nopMetrics) OnAppend(time.Duration, error)     {}
+func (nopMetrics) OnRead(time.Duration, int, error)  {}
+func (nopMetrics) OnSaveOffset(time.Duration, error) {}
+func (nopMetrics) OnLoadOffset(time.Duration, error) {}
+
+var variant atomic.Uint32
+
+// SetVariant selects, from a hash of the running case, which optional SQLite
+// store features (logger, metrics hook) are switched on for stores opened
+// through OpenSQLite: they must not change the store's behaviour.  Being a
+// function of the case, a replay opens the same variant.
+func SetVariant(caseHash string) {
+	var v uint32
+	for i := 0; i < len(caseHash); i++ {
+		v = v*31 + uint32(caseHash[i])
+	}
+	variant.Store(v)
+}
+
+// VariantOptions returns the options of the current variant.
+func VariantOptions() []sqlite.Option {
+	v := variant.Load()
+	var opts []sqlite.Option
+	if v&1 != 0 {
+		opts = append(opts, sqlite.WithLogger(nopLogger{}))
+	}
+	if v&2 != 0 {
+		opts = append(opts, sqlite.WithMetricsHook(nopMetrics{}))
+	}
+	return opts
+}
+
 // OpenSQLite opens (or reopens) a SQLite store file inside dir.
 func OpenSQLite(dir, name string, opts ...sqlite.Option) (*sqlite.SQLiteStore, error) {
-	return sqlite.New(filepath.Join(dir, name), opts...)
+	return sqlite.New(filepath.Join(dir, name), append(VariantOptions(), opts...)...)
 }
